@@ -44,6 +44,7 @@ enum {
     F_OVERFLOW_INDEX_REFUSED,
     F_ERASE_MIDDLE,
     F_POP_FRONT_N_PARTIAL,
+    F_POP_FRONT_N_HUGE,
     F_SLICED_SWAP,
     F_SORT_TIES,
     F_COPY_REALLOC,
@@ -746,7 +747,17 @@ static void array_op(struct mon_rng *r, unsigned phase) {
             case 5: case 6: k = a->n ? a->n - 1 : 0; break;
             case 7: case 8: k = a->n; break;
             case 9: k = a->n + 1; break;
-            case 10: k = mon_chance(r, 1, 2) ? SIZE_MAX : SIZE_MAX / s_item; break;
+            case 10:
+                /* counts whose byte size (item_size * k) does not fit size_t, incl. products that wrap to a small number */
+                switch (mon_below(r, 5)) {
+                    case 0: k = SIZE_MAX; break;
+                    case 1: k = SIZE_MAX / s_item; break;
+                    case 2: k = SIZE_MAX / s_item + 1 + (size_t)mon_below(r, a->n + 2); break;
+                    case 3: k = SIZE_MAX / 2 + 1 + (size_t)mon_below(r, 4); break;
+                    default: k = ((size_t)1 << (40 + mon_below(r, 23))) + (size_t)mon_below(r, a->n + 2); break;
+                }
+                mon_flag(F_POP_FRONT_N_HUGE);
+                break;
             case 11: case 12: k = (size_t)mon_below(r, a->n + 1); break;
             default: k = 1 + (size_t)mon_below(r, a->n < 5 ? a->n + 1 : 5); break;
         }
@@ -1523,6 +1534,7 @@ int main(int argc, char **argv) {
         {F_OVERFLOW_INDEX_REFUSED, "overflow_index_refused"},
         {F_ERASE_MIDDLE, "erase_middle"},
         {F_POP_FRONT_N_PARTIAL, "pop_front_n_partial"},
+        {F_POP_FRONT_N_HUGE, "pop_front_n_huge_count"},
         {F_SLICED_SWAP, "sliced_swap_item_gt_128"},
         {F_SORT_TIES, "sort_with_ties"},
         {F_COPY_REALLOC, "copy_into_smaller_dynamic"},
